@@ -252,6 +252,31 @@ func runC03(c *eng.Ctx) {
 	}
 
 	entryJudgedByData(c, "ERR-verify")
+	// the integrity check and the scanner recognise a data file that ends inside (or before) a record header by the
+	// io.EOF of the header read: ReadNeedleHeader hands the backend's read error up as it is, never a description of it
+	if fn := c.NeedFunc("weed/storage/needle", "ReadNeedleHeader"); fn != nil {
+		reads := eng.Find(fn, eng.CallTo("backend.BackendStorageFile).ReadAt", "io.ReaderAt).ReadAt"))
+		if len(reads) != 1 {
+			c.Undecided("ERR-verify", eng.FuncName(fn)+" header-read", fn.Pos(), "header read not found")
+		} else {
+			e := eng.ErrOf(reads[0])
+			for i, r := range eng.Find(fn, eng.IsReturn) {
+				ret := r.(*ssa.Return)
+				op := eng.ReturnErrOperand(ret)
+				ok := op != nil
+				if ok {
+					for _, v := range eng.ResolveFrom(op, ret) {
+						if v == eng.Zero || eng.IsNilConst(v) || v == e || eng.SameVar(v, e) {
+							continue
+						}
+						ok = false
+					}
+				}
+				c.Ob("ERR-verify", fmt.Sprintf("%s read-error-unchanged#%d", eng.FuncName(fn), i), ok, r.Pos(),
+					"the error of the header read reaches the callers unchanged (they compare it with io.EOF to tell a torn tail from a failure)")
+			}
+		}
+	}
 
 	// (4b) the torn tail is cut at the END of the last indexed record
 	if fn := c.NeedFunc("weed/storage", "verifyNeedleIntegrity"); fn != nil {
